@@ -34,6 +34,7 @@ def run(ctx):
                     docs.append(G.spell(ov[0], ctx.rng, level=ctx.rng.choice([0, 0.5]))); tags.append("overlap_variant")
         reps = model_resolve(ctx, docs)
         graphs, gdocs = [], []
+        acc_items = []
         for d, t, rep in zip(docs, tags, reps):
             routes = ("dict", "builder") if ctx.rng.random() < 0.7 else ("dict", "yaml", "json", "builder")
             if not json_safe(d):
@@ -54,7 +55,162 @@ def run(ctx):
                 rot = dict(zip(names, names[1:] + names[:1])) if len(names) > 1 else {names[0]: names[0] + "_r"}
                 g3 = g.rename_demes(rot)
                 graphs.append(g3); gdocs.append({"route": "rename_demes", "names": rot, "document": show(canon_doc(d))})
+                acc_items += accessor_items(ctx, g, g2, g3, rot)
         check_valid(ctx, graphs, "returned graph", gdocs)
+        check_accessors(ctx, acc_items)
+
+
+# ---- the read accessors: Epoch.time_span, Deme.end_time, Deme.time_span, Graph.__getitem__, Graph.__contains__ ----------------
+# (Model/Accessors.lean through the driver op `accessors`; theorems in Theorems/C01Accessors.lean)
+
+ABSENT_NAMES = ["", "δ", "人口_0", "e\u0301", "no such deme", "A ", "__getitem__", "\u00b7x"]
+
+
+def accessor_items(ctx, g, g_gen, g_rot, rot):
+    """(graph, route, replaced old names) for a returned graph and its derivatives; one more derivative renames a random
+    non-empty subset of the demes to fresh (partly non-ASCII) names, so that replaced old names are really gone"""
+    names = [x.name for x in g.demes]
+    k = ctx.rng.randint(1, len(names))
+    chosen = ctx.rng.sample(names, k)
+    fresh = {}
+    for i, n in enumerate(chosen):
+        new = ctx.rng.choice(["ν", "new_", "Ω", "z"]) + n + str(i)
+        while new in names or new in fresh.values():
+            new += "_"
+        fresh[n] = new
+    import time as _time
+    t0 = _time.time()
+    items = [(g, "fromdict", [])]
+    # the two derivatives C01 builds anyway: every other one (keeps the quick tier within its budget)
+    if ctx.tier != "quick" or ctx.rng.random() < 0.5:
+        items.append((g_gen, "in_generations", []))
+    if ctx.tier != "quick" or ctx.rng.random() < 0.5:
+        items.append((g_rot, "rename_demes(rotation)", list(rot)))
+    try:
+        items.append((g.rename_demes(fresh), "rename_demes(fresh)", list(fresh)))
+        ctx.extra["accessors_seconds"] = round(ctx.extra.get("accessors_seconds", 0) + _time.time() - t0, 4)
+    except Exception as e:  # noqa: BLE001   (fresh identifiers, distinct: must be accepted)
+        ctx.violation("rename_demes refuses distinct fresh identifiers", {"graph": show(canon(g.asdict())), "names": fresh},
+                      detail=f"{type(e).__name__}: {e}")
+    return items
+
+
+def outcome(f):
+    try:
+        return {"ok": f()}
+    except Exception as e:  # noqa: BLE001
+        return {"err": type(e).__name__, "msg": (e.args[0] if e.args else None)}
+
+
+def code_accessors(g, probes):
+    """what the REAL accessors return"""
+    pos = {id(x): i for i, x in enumerate(g.demes)}
+    demes_out = [{"end_time": outcome(lambda: x.end_time), "time_span": outcome(lambda: x.time_span),
+                  "epochs": [e.time_span for e in x.epochs]} for x in g.demes]
+    lookups = []
+    for n in probes:
+        got = outcome(lambda: g[n])
+        if "ok" in got:
+            got = {"ok": {"pos": pos.get(id(got["ok"]), -1), "name": got["ok"].name}}
+        lookups.append({"get": got, "contains": outcome(lambda: n in g).get("ok")})
+    return {"demes": demes_out, "lookups": lookups}
+
+
+def same_accessors(code, model):
+    """the Model's reply (wire JSON) against the code's values, exactly"""
+    def num_eq(c, m):
+        return canon_eq(canon(c), dec(m))
+
+    def out_eq(c, m, val):
+        if "ok" in c:
+            return "ok" in m and val(c["ok"], m["ok"])
+        return m.get("err") == c["err"] or (m.get("err") == "Error" and str(m.get("msg", "")).startswith(c["err"]))
+    if len(code["demes"]) != len(model["demes"]) or len(code["lookups"]) != len(model["lookups"]):
+        return False
+    for c, m in zip(code["demes"], model["demes"]):
+        if not (out_eq(c["end_time"], m["end_time"], num_eq) and out_eq(c["time_span"], m["time_span"], num_eq)
+                and len(c["epochs"]) == len(m["epochs"]) and all(num_eq(a, b) for a, b in zip(c["epochs"], m["epochs"]))):
+            return False
+    for c, m in zip(code["lookups"], model["lookups"]):
+        if c["contains"] is not m["contains"]:
+            return False
+        if not out_eq(c["get"], m["get"], lambda a, b: a == {"pos": int(dec(b["pos"])) if b["pos"] is not None else None, "name": b["name"]}):
+            return False
+        if "err" in c["get"] and (c["get"]["err"] != "KeyError" or c["get"]["msg"] != m["get"].get("msg")):
+            return False
+    return True
+
+
+def accessor_oracle(g, ad, probes, code):
+    """the property read directly off the real behaviour (`ad` = g.asdict()); returns a description of the first breach or None"""
+    from fractions import Fraction
+    names = [x.name for x in g.demes]
+    for x, c in zip(g.demes, code["demes"]):
+        et, ts = c["end_time"], c["time_span"]
+        if "ok" not in et or "ok" not in ts:
+            return f"raised: deme {x.name!r}: end_time / time_span raised: {et} {ts}"
+        et, ts = et["ok"], ts["ok"]
+        last = ad["demes"][names.index(x.name)]["epochs"][-1]["end_time"]
+        if not (et == last and et >= 0 and math.isfinite(et)):
+            return f"end_time: deme {x.name!r}: end_time {et!r} is not the finite, non-negative end {last!r} of its last epoch"
+        if not (ts > 0 and ts == x.start_time - last and math.isinf(ts) == (len(x.ancestors) == 0)):
+            return f"time_span: deme {x.name!r}: time_span {ts!r} (start {x.start_time!r}, end {last!r}, ancestors {x.ancestors!r})"
+        if not all(s > 0 for s in c["epochs"]):
+            return f"epoch time_span: deme {x.name!r}: an epoch's time_span is not positive: {c['epochs']!r}"
+        if math.isinf(ts) != any(math.isinf(s) for s in c["epochs"]) or \
+                (not math.isinf(ts) and sum(Fraction(s) for s in c["epochs"]) != Fraction(ts)):
+            return f"sum of epoch time spans: deme {x.name!r}: the epochs' time spans {c['epochs']!r} do not add up to the deme's {ts!r}"
+    for n, c in zip(probes, code["lookups"]):
+        if n in names:
+            i = names.index(n)
+            if c["contains"] is not True or c["get"] != {"ok": {"pos": i, "name": n}}:
+                return f"lookup of a deme name: name {n!r} of deme {i}: `in` gives {c['contains']!r}, lookup gives {c['get']!r}"
+        elif c["contains"] is not False or c["get"].get("err") != "KeyError":
+            return f"lookup of an absent name: {n!r} is not a deme name: `in` gives {c['contains']!r}, lookup gives {c['get']!r}"
+    return None
+
+
+def check_accessors(ctx, items):
+    import time as _time
+    t0 = _time.time()
+    reqs, codes, probes_all, ads = [], [], [], []
+    for g, _route, replaced in items:
+        names = [x.name for x in g.demes]
+        probes = list(names)
+        for n in list(replaced) + ctx.rng.sample(ABSENT_NAMES, 3) + [""] + [names[-1] + "_", names[0][:-1], names[0].swapcase()]:
+            if n not in probes:
+                probes.append(n)
+        probes_all.append(probes)
+        codes.append(code_accessors(g, probes))
+        ads.append(g.asdict())
+        reqs.append({"op": "accessors", "graph": enc(ads[-1]), "index": index_of(g), "names": probes})
+    reps = ctx.driver.batch(reqs)
+    for (g, route, replaced), probes, code, rep, ad in zip(items, probes_all, codes, reps, ads):
+        case = None
+        ctx.compared += 1
+        ctx.dist["accessors:" + route] += 1
+        model = rep.get("ok")
+        if model is None or not same_accessors(code, model):
+            case = {"route": route, "graph": show(canon(ad)), "index": index_of(g), "names": probes}
+            ctx.disagreement("accessors", case, show_acc(code), rep)
+        bad = accessor_oracle(g, ad, probes, code)
+        if bad is None and any(n in g for n in replaced if n not in [x.name for x in g.demes]):
+            bad = "replaced old name: a replaced old name is still in the renamed graph"
+        if bad is not None:
+            case = case or {"route": route, "graph": show(canon(ad)), "index": index_of(g), "names": probes}
+            ctx.violation("accessor of a returned graph disagrees with the data model: " + bad.split(":")[0], case, detail=bad,
+                          python=("/venv/bin/python -c \"import demes, math; inf=math.inf; "
+                                  f"g=demes.Graph.fromdict({ad!r}); "
+                                  "print([(d.name, d.end_time, d.time_span, [e.time_span for e in d.epochs], d.name in g, g[d.name].name) for d in g.demes])\""))
+    ctx.extra["accessors_seconds"] = round(ctx.extra.get("accessors_seconds", 0) + _time.time() - t0, 4)
+    ctx.extra["accessors_graphs"] = ctx.extra.get("accessors_graphs", 0) + len(items)
+
+
+def show_acc(code):
+    def o(x):
+        return {"ok": show(canon(x["ok"]))} if "ok" in x and not isinstance(x["ok"], dict) else x
+    return {"demes": [{"end_time": o(c["end_time"]), "time_span": o(c["time_span"]), "epochs": show(canon(c["epochs"]))} for c in code["demes"]],
+            "lookups": code["lookups"]}
 
 
 def replay(ctx, payload):
